@@ -552,7 +552,7 @@ fn gen_boundary(tier: &str, rng: &mut Rng, out: &mut Vec<String>) {
         let nref = if thorough { long.len() } else { 12 };
         for i in 0..nref {
             let r = if thorough { long[i].clone() } else { rng.pick(&long).clone() };
-            let nq = if thorough { 40 } else { 10 };
+            let nq = if thorough { 18 } else { 10 };
             let mut qs: Vec<Vec<u8>> = (0..nq).map(|_| rng.pick(&all).clone()).collect();
             // the reversed / rotated reference: the optimum then starts with a gap run and ends with one
             let mut rev = r.clone();
@@ -566,7 +566,7 @@ fn gen_boundary(tier: &str, rng: &mut Rng, out: &mut Vec<String>) {
     }
     // random larger pairs over 2..4 symbols at exactly bandwidth = max(m, n): one match score in {1,2,3,5,8}, mismatch in
     // {-1,-2,-4}, gap in {-1,-2,-3}; queries: rotations, reversal, pieces, mutated copies, unrelated
-    let cases = if thorough { 20_000 } else { 500 };
+    let cases = if thorough { 5_000 } else { 500 };
     for _ in 0..cases {
         let alpha: Vec<u8> = b"ACGT"[..2 + rng.below(3)].to_vec();
         let k = alpha.len();
